@@ -522,6 +522,31 @@ def w_independence(ctx, rng, i):
                 perturb(buf)
             if digest(src_) != d_src:
                 ctx.fail("write_into_copy_reaches_the_original", cls=cls, mech="identity_then_" + how)
+    # --- a copy that is then given the original's parameters back through the vector interface (from the original's own
+    # as_vector(), a view of its matrix for some classes) is still a copy: it owns its matrix
+    if isinstance(o, _mt.Homogeneous):
+        for how in ("from_vector", "_from_vector_inplace"):
+            try:
+                src_ = o.copy()
+                dup_ = src_.copy()
+                v_ = src_.as_vector()
+                r_ = dup_.from_vector(v_) if how == "from_vector" else (dup_._from_vector_inplace(v_), dup_)[1]
+            except Exception:
+                continue
+            ctx.tap("copy_given_the_originals_vector", "calls"); ctx.tap("copy_given_the_originals_vector", "checked")
+            try:
+                sh_ = shared(r_, src_, allow=allowed_shared(o))
+            except Exception:
+                sh_ = []
+            if sh_:
+                ctx.fail("copy_shares_memory_with_the_original", cls=cls, mech="copy_then_" + how + "_with_the_originals_vector", buffer=str(sh_[0])[:80])
+            else:
+                beh_ = np.array(r_.h_matrix, dtype=float)
+                for path, buf in buffers(src_):
+                    if not any(path.startswith(p_) for p_ in allowed_shared(o)):
+                        perturb(buf)
+                if tx.maxdiff(np.asarray(r_.h_matrix, dtype=float), beh_) > 0:
+                    ctx.fail("write_into_original_reaches_the_copy", cls=cls, mech="copy_then_" + how + "_with_the_originals_vector")
     ctx.see("classes", cls)
     ctx.count_case((cls, d, tuple(sorted(set(ran)))), nontrivial=nbuf > 0 or bool(ran),
                    sample={"cls": cls, "dims": d, "buffers_written": nbuf, "mutators": sorted(set(ran))} if i < 8 else None)
@@ -546,7 +571,7 @@ def w_manager_history(ctx, rng, i):
     for step in range(n_ops):
         op = ["set", "set", "set", "get", "delete", "iterate", "copy", "assign_to_owner", "transform_owner", "none_key",
               "edit_assigned", "bad_dims", "bad_type", "edit_stored", "set_own_group", "set_own_group", "assign_own_manager",
-              "delete_none_key", "empty_group_and_dimension_change", "bulk_update", "bulk_update_mixed", "convert_owner"][rng.integers(0, 22)]
+              "delete_none_key", "empty_group_and_dimension_change", "bulk_update", "bulk_update_mixed", "convert_owner", "setdefault"][rng.integers(0, 23)]
         if op == "set":
             name = NAMES[rng.integers(0, len(NAMES))]
             val = gen.shape(rng, None, d=d, n=int(rng.integers(3, 7)))
@@ -679,6 +704,28 @@ def w_manager_history(ctx, rng, i):
                     pass
             del lm["zz empty"]
             del model["zz empty"]
+        elif op == "setdefault":
+            # the mapping interface's "assign unless it is there": an assignment like any other when the name is new (an owned copy,
+            # the one dimensionality enforced), the stored group when it is not
+            name = NAMES[rng.integers(0, len(NAMES))]
+            val = gen.shape(rng, None, d=d, n=int(rng.integers(3, 7)))
+            ctx.tap("setdefault", "calls"); ctx.tap("setdefault", "checked")
+            if name in model:
+                before_ = digest(lm)
+                lm.setdefault(name, val)
+                if digest(lm) != before_:
+                    ctx.fail("manager_state_differs_from_model", cls="LandmarkManager", mech="setdefault_on_an_existing_name_changed_the_manager")
+            else:
+                lm.setdefault(name, val)
+                model[name] = digest(val)
+                assigned.append((val, name))
+                if len(model) >= 1 and rng.random() < 0.4:
+                    try:
+                        lm.setdefault("of another dimensionality", gen.shape(rng, "PointCloud", d=5 - d, n=3))
+                        ctx.fail("group_of_another_dimensionality_accepted", cls="LandmarkManager", mech="setdefault")
+                        del lm["of another dimensionality"]
+                    except ValueError:
+                        pass
         elif op == "edit_assigned" and assigned:
             val, name = assigned[rng.integers(0, len(assigned))]
             perturb(val.points)
